@@ -41,6 +41,7 @@ typedef struct {
   socklen_t               srv_addrlen;
   int                     lib_closed, peer_closed;
   uint64_t                gen;
+  int64_t                 readable_since; /* monitor-private: first time the library's end was seen readable */
   /* responder-private */
   uint8_t inbuf[2048];
   size_t  inlen;
@@ -429,6 +430,9 @@ typedef struct {
   uint8_t  msg[600];
 } et_pending_t;
 static et_pending_t et_pending[ET_MAX_PENDING];
+#define ET_PB_MAXTX 8
+static _Atomic int     et_bk_ntx, et_pb_ntx;
+static _Atomic int64_t et_pb_tx_ns[ET_PB_MAXTX];
 static _Atomic int  et_resp_stop;
 static _Atomic uint64_t et_n_pending_dropped;
 
@@ -472,6 +476,15 @@ static void et_resp_query(int slot, uint64_t gen, int srv, int is_tcp, const uin
     return;
   }
   beh = atomic_load_explicit(&et_srv_beh[srv], ET_RELAX);
+  /* transmission log of the two names of the backed-off-busy scenario (timers profile) */
+  if (strcmp(q.first_label, "silbk") == 0) {
+    atomic_fetch_add(&et_bk_ntx, 1);
+  } else if (strcmp(q.first_label, "silpb") == 0) {
+    int k = atomic_fetch_add(&et_pb_ntx, 1);
+    if (k < ET_PB_MAXTX) {
+      atomic_store(&et_pb_tx_ns[k], et_now_ns());
+    }
+  }
   /* per-name overrides (first label) */
   if (strncmp(q.first_label, "sil", 3) == 0) {
     beh = ET_B_SILENT;
